@@ -47,6 +47,12 @@ def run(ctx):
         n = max(len(d) for d in sess)
         specs.append(dict(session=sess, fn="heat", emb=(embs + EXACT_EMBS[4:6] + EXTREME_EMBS)[i % (len(embs) + 4)] if i % 3 != 1 else EXACT_EMBS[i % 4], sigma_t=sigma_t, anchor=0, aux=["W"],
                           zerotol=Fraction(n, 10 ** 6) / Fraction(math.sqrt(8 * math.pi * sigma_t))))
+    # whole-number bandwidths (handed over as Python ints by the session machinery): heat(F, G, sigma=1) must be heat(F, G, sigma=1.0)
+    for i in range(6 if quick else 40):
+        sigma_t = [1.0, 2.0, 5.0][i % 3]
+        sess = laws.make_session(rng, 2, 10, rng.choice([6, 12]), neg=(i % 2 == 1), with_empty=True)
+        n = max(len(d) for d in sess)
+        specs.append(dict(session=sess, fn="heat", emb=EXACT_EMBS[0], sigma_t=sigma_t, anchor=0, aux=["W", "SF"], zerotol=Fraction(n, 10 ** 6) / Fraction(math.sqrt(8 * math.pi * sigma_t))))
     # argument objects: fresh float arrays per call, or ONE set of float64 arrays / integer-dtype arrays / nested lists (of floats, of ints)
     # shared by all calls of the session; half of the shared sessions are then overwritten in place with doubled coordinates and evaluated
     # again (a value remembered per argument OBJECT instead of per argument VALUE shows there)
